@@ -372,7 +372,7 @@ func (e *Engine) arrayOp(n *Node, op *Op) error {
 		if err != nil {
 			return e.viol("in-range Get at %d/%d failed: %v", idx, cnt, err)
 		}
-		if err := cmpValue(v, n.Elems[idx], fmt.Sprintf("Get(%d)", idx), CmpOpts{CheckVID: true}); err != nil {
+		if err := cmpValue(v, n.Elems[idx], fmt.Sprintf("Get(%d)", idx), e.co()); err != nil {
 			return e.viol("%v", err)
 		}
 		// Get hands out a new handle object for a nested container: it becomes the designated one (R1).
@@ -578,6 +578,10 @@ func (e *Engine) mapOp(n *Node, op *Op) error {
 		return nil
 
 	case "mgrow":
+		if g := e.Cfg.HipGroups; g > 0 && g < 32 {
+			e.Stats.Skipped++ // thousands of keys in a handful of collision groups would exceed the collision limit
+			return nil
+		}
 		leaves := 8 + int(op.P%56)
 		total := leaves * int(e.Cfg.Slab) / 24
 		if total > 6000 {
@@ -614,7 +618,7 @@ func (e *Engine) mapOp(n *Node, op *Op) error {
 		if err != nil {
 			return e.viol("Get(%s) of a present key failed: %v", short(ck), err)
 		}
-		if err := cmpValue(v, ent.V, "Get("+short(ck)+")", CmpOpts{CheckVID: true}); err != nil {
+		if err := cmpValue(v, ent.V, "Get("+short(ck)+")", e.co()); err != nil {
 			return e.viol("%v", err)
 		}
 		if c := nodeOf(ent.V); c != nil {
